@@ -295,8 +295,8 @@ def check_by_gene(ctx, t, ignore=None, sub=None):
     nong = M.NONGENES if ignore is None else M.ANTITARGET_ALIASES + tuple(ignore)
     want = [(g, [t.rows[i] for i in idxs]) for g, idxs in M.groups(t.bins, nong)]
     got = ctx.call(observe_groups, t.cna, ignore)
-    sub = {**t.describe(), **(sub or {})}
-    ic = index_class(t.index) + ("/custom-ignore" if ignore is not None else "")
+    sub = {**t.describe(), **({"ignore": list(ignore)} if ignore is not None else {}), **(sub or {})}
+    ic = index_class(t.index)
     if isinstance(got, Exc):
         ctx.violation("iterating bins by gene yields the groups (no exception)", f"by_gene/raises/{got.key}/{ic}", expected=compact(want), observed=got, sub=sub)
         return False
@@ -535,8 +535,10 @@ def check_gm_seg(ctx, t, cutspec, srot, thr, minp, with_probes, female=True, hap
         via = "grouping-ok" if grouping_ok(t, masks) else "via-by_gene"
         ctx.violation(clause, f"genemetrics-segments/{kind if via == 'grouping-ok' else 'rows'}/{via}", expected=show(alts[0]), observed=show([(r, True) for r in res]), sub=sub, detail={"mismatch": kind})
     ctx.stratum("gm-seg-gene-part-reported", len(alts[0]))
-    if any(M.reaches(s[3], thr) is False for s in msegs):
+    if any(abs(s[3]) < thr for s in msegs):
         ctx.stratum("gm-seg-segment-below-threshold")
+    if any(abs(s[3]) == thr for s in msegs):
+        ctx.stratum("gm-seg-segment-exactly-at-threshold")
     spans = M.gene_groups(bins)
     for m in masks:
         for _g, idxs in spans:
@@ -758,7 +760,8 @@ def chrom_cuts(n, kmax):
 
 
 # (segment-level rotation, threshold, min_probes, segments carry a probes column)
-SEG_CONFIGS = ((0, 0.2, 1, True), (1, 0.2, 2, False), (2, 0.2, 3, True), (1, 0.6, 1, True))
+# threshold 0.5 meets the segment level 0.5 exactly: a given (not computed) value equal to the threshold reaches it
+SEG_CONFIGS = ((0, 0.2, 1, True), (1, 0.2, 2, False), (2, 0.2, 3, True), (1, 0.5, 1, True))
 
 
 def run_gm_seg(case, ctx):
